@@ -46,6 +46,8 @@ def rand_args(rnd, sig, nh, cols):
 
 
 def random_history(sig, api, rnd, length, n_per_type, p_close=0.12, p_until=0.10, allow_define=True, enum_prob=0.1):
+    if sig.models:
+        return random_history_model(sig, api, rnd, length, p_close, p_until)
     steps, nh = prefix(sig, api, n_per_type)
     for _ in range(length):
         r = rnd.random()
@@ -102,6 +104,8 @@ def random_facts(sig, api, rnd, nh, k, with_equate=True):
 def family_c03(sig, api, rnd, n_per_type, nfacts, nvariants):
     """one-shot history and variants: permuted facts, interleaved closes, duplicated assertions,
     a re-close of the closed model"""
+    if sig.models:
+        return [m[:-1] + [{"op": "close", "tag": "fam:C03"}] for m in family_c17(sig, api, rnd, nfacts + 2, nvariants)]
     pre, nh = prefix(sig, api, n_per_type)
     facts = random_facts(sig, api, rnd, nh, nfacts)
     fin = {"op": "close", "tag": "fam:C03"}
@@ -122,9 +126,14 @@ def family_c03(sig, api, rnd, n_per_type, nfacts, nvariants):
 
 def family_c07(sig, api, rnd, n_per_type, nfacts, max_stop):
     """direct close vs. close_until stopping at the j-th evaluation, then resumed"""
-    pre, nh = prefix(sig, api, n_per_type)
-    facts = random_facts(sig, api, rnd, nh, nfacts)
-    more = random_facts(sig, api, rnd, nh, 2, with_equate=False)
+    if sig.models:
+        pre, nh = model_universe(sig, api, rnd)
+        facts = model_facts(sig, api, rnd, nh, nfacts + 2)
+        more = []
+    else:
+        pre, nh = prefix(sig, api, n_per_type)
+        facts = random_facts(sig, api, rnd, nh, nfacts)
+        more = random_facts(sig, api, rnd, nh, 2, with_equate=False)
     fin = {"op": "close", "tag": "fam:C07"}
     members = [pre + facts + [dict(fin)]]
     for j in range(max_stop + 1):
@@ -173,3 +182,122 @@ def exhaustive_bodies(theory, sig, api, pre_n, max_ops, max_asserts, max_stop, m
             steps.append({"op": "close"})
         out.append(steps)
     return out, r
+
+
+# ---------------------------------------------------------------------------------------------
+# theories with one model declaration (C17): morphism graphs are kept functional and acyclic
+
+def model_universe(sig, api, rnd, n_obj=2, n_mor=2, n_other=2):
+    model = list(sig.models)[0]
+    mor = model + "Mor"
+    steps = []
+    nh = {t: 0 for t in sig.types}
+    for _ in range(n_obj):
+        steps.append({"op": "new", "ty": model})
+        nh[model] += 1
+    for f in api["define"]:
+        cols = sig.rels[f]["cols"]
+        if len(cols) == 1 and cols[0] == model:      # constants naming objects
+            steps.append({"op": "define", "rel": f, "args": []})
+            nh[model] += 1
+    for t in api["new"]:
+        if t in (model, mor):
+            continue
+        for _ in range(n_other):
+            steps.append({"op": "new", "ty": t})
+            nh[t] += 1
+    for _ in range(n_mor):
+        steps.append({"op": "new", "ty": mor})
+        nh[mor] += 1
+    return steps, nh
+
+
+def _acyclic(edges):
+    nodes = {x for e in edges for x in e}
+    indeg = {n: 0 for n in nodes}
+    for a, b in edges:
+        if a == b:
+            return False
+        indeg[b] += 1
+    todo = [n for n in nodes if indeg[n] == 0]
+    seen = 0
+    while todo:
+        n = todo.pop()
+        seen += 1
+        for a, b in edges:
+            if a == n:
+                indeg[b] -= 1
+                if indeg[b] == 0:
+                    todo.append(b)
+    return seen == len(nodes)
+
+
+def model_facts(sig, api, rnd, nh, k):
+    """member-relation facts and dom/cod facts of an acyclic functional morphism graph"""
+    model = list(sig.models)[0]
+    mor = model + "Mor"
+    pre = eql.snake(model) + "_mor_"
+    dom, cod = {}, {}
+    facts = []
+    members = sig.models[model]
+    others = [r for r in api["insert"] if r not in members and not r.startswith(pre)
+              and not any(c in (model, mor) for c in sig.rels[r]["cols"])]
+    for _ in range(k):
+        r = rnd.random()
+        if r < 0.45 and members:
+            rel = rnd.choice(members)
+            args = rand_args(rnd, sig, nh, sig.rels[rel]["cols"])
+            if args is not None:
+                facts.append(step_insert(rel, args))
+        elif r < 0.9:
+            m = rnd.randrange(nh[mor])
+            which = rnd.choice(["dom", "cod"])
+            tab = dom if which == "dom" else cod
+            if m in tab:
+                continue
+            o = rnd.randrange(nh[model])
+            d2, c2 = dict(dom), dict(cod)
+            (d2 if which == "dom" else c2)[m] = o
+            edges = [(d2[x], c2[x]) for x in d2 if x in c2]
+            if not _acyclic(edges):
+                continue
+            tab[m] = o
+            facts.append(step_insert(pre + which, [m, o]))
+        elif others:
+            rel = rnd.choice(others)
+            args = rand_args(rnd, sig, nh, sig.rels[rel]["cols"])
+            if args is not None:
+                facts.append(step_insert(rel, args))
+    return facts
+
+
+def family_c17(sig, api, rnd, nfacts, nvariants, tag="fam:C17"):
+    pre, nh = model_universe(sig, api, rnd)
+    facts = model_facts(sig, api, rnd, nh, nfacts)
+    fin = {"op": "close", "tag": tag}
+    members = [pre + facts + [dict(fin)]]
+    for v in range(nvariants):
+        f = list(facts)
+        if v > 0:
+            rnd.shuffle(f)
+        body = []
+        for st in f:
+            body.append(st)
+            if rnd.random() < (0.5 if v == 0 else 0.3):
+                body.append({"op": "close"} if rnd.random() < 0.7 else {"op": "close_until", "stop": rnd.randint(0, 2)})
+        members.append(pre + body + [dict(fin)])
+    return members
+
+
+def random_history_model(sig, api, rnd, length, p_close=0.12, p_until=0.10):
+    pre, nh = model_universe(sig, api, rnd)
+    facts = model_facts(sig, api, rnd, nh, length)
+    body = []
+    for st in facts:
+        body.append(st)
+        r = rnd.random()
+        if r < p_close * 2:
+            body.append({"op": "close"})
+        elif r < p_close * 2 + p_until * 2:
+            body.append({"op": "close_until", "stop": rnd.randint(0, 3)})
+    return pre + body + [{"op": "close"}]
